@@ -102,7 +102,7 @@ class _TreeDist(object):
                     hash_lang[lang] = lang
                     temp_stack.append(hash_lang[lang])
             elif elem.find(")") > -1:
-                lang = elem.replace(")", "")
+                lang = elem.split(")")[0]
                 lang = lang.split(":")[0].strip()
                 lang = lang.replace(" ", "_").replace("'", "")
                 if lang in hash_lang:
